@@ -118,7 +118,7 @@ class _ThreadWorker:
     def run_in_thread(self):
         from vc import vcrt
 
-        return vcrt.Coro(lambda: self.work(), "run_in_thread")
+        return vcrt.Coro(lambda: self.work(), (), {})
 
 
 class _NullCtx:
@@ -140,14 +140,17 @@ def _rhj_update_guard(e, self, hash_job, trace):
     """The new hash reaches update_file_hashes only if it differs from the old one or the cause is CONFIRMED, and
     then for this path, with this cause."""
     c = cur()
+    from vc import vcrt
+
     old = hash_job.old_hash
     hashes = e.hashes
-    new = hashes[hash_job.path] if isinstance(hashes, dict) else None
-    if new is None:
+    if not isinstance(hashes, sym.SymMap):
         return False
+    new = hashes[hash_job.path]
     same = B(sym.sym_eq(new, old))
-    return wrap_bool(tm.And(tm.Or(tm.Not(same), tm.Eq(I(hash_job.cause), tm.mk_int(HashUpdateCause.CONFIRMED.value))),
-                            tm.Eq(I(e.cause), I(hash_job.cause)), tm.mk_bool(len(hashes) == 1)))
+    return wrap_bool(tm.And(B(hashes.__contains__(hash_job.path)),
+                            tm.Or(tm.Not(same), tm.Eq(I(hash_job.cause), tm.mk_int(HashUpdateCause.CONFIRMED.value))),
+                            tm.Eq(I(e.cause), I(hash_job.cause)), tm.Eq(I(vcrt.v_len(hashes)), tm.mk_int(1))))
 
 
 def _rhj_finish(c, outcome, args, old):
@@ -162,3 +165,109 @@ class run_hash_job:
     events = {"update_file_hashes": _rhj_update_guard}
     finish = _rhj_finish
     modifies = ["hash_job.worker", "self.scheduler"]
+
+
+# ---------------------------------------------------------------- where a stored result is dropped (scan)
+
+ALLOWED_HASH_DROPS = {
+    ("stepup/core/executor.py", "Executor._reset_step_to_pending"): "the inputs or outputs of a checked step changed",
+    ("stepup/core/step.py", "Step.after_lost_product"): "a detached step lost a product",
+    ("stepup/core/step.py", "Step.mark_completed"): "the step failed or was deferred",
+    ("stepup/core/workflow.py", "Workflow.persist_nglob_matches"): "the matches of a glob pattern of the step changed",
+    ("stepup/core/step.py", "Step.delete_hash"): "the primitive itself (DELETE FROM step_hash)",
+}
+
+
+@structural("C04/scan/hash_drops", props=["C04"],
+            note="the stored step hash is deleted only by Step.delete_hash, and delete_hash is called only from the "
+                 "functions the property allows (generated from the AST of every module of stepup/core)")
+def hash_drops():
+    import glob
+    import os
+
+    out = []
+    found = set()
+    for path in sorted(glob.glob(os.path.join(extract.REPO, "stepup", "core", "*.py"))):
+        rel = os.path.relpath(path, extract.REPO)
+        tree = ast.parse(open(path).read())
+
+        class V(ast.NodeVisitor):
+            def __init__(self):
+                self.stack = []
+
+            def visit_ClassDef(self, node):
+                self.stack.append(node.name)
+                self.generic_visit(node)
+                self.stack.pop()
+
+            def visit_FunctionDef(self, node):
+                self.stack.append(node.name)
+                self.generic_visit(node)
+                self.stack.pop()
+
+            visit_AsyncFunctionDef = visit_FunctionDef
+
+            def visit_Call(self, node):
+                if isinstance(node.func, ast.Attribute) and node.func.attr == "delete_hash":
+                    found.add((rel, ".".join(self.stack)))
+                self.generic_visit(node)
+
+            def visit_Constant(self, node):
+                if isinstance(node.value, str) and "DELETE FROM STEP_HASH" in " ".join(node.value.upper().split()):
+                    found.add((rel, ".".join(self.stack)))
+
+        V().visit(tree)
+    for site in sorted(found):
+        out.append((f"scan/hash_drop/{site[0]}::{site[1]}", site in ALLOWED_HASH_DROPS,
+                    f"the stored hash is dropped in {site}, which is not one of {sorted(ALLOWED_HASH_DROPS)}"))
+    for site in ALLOWED_HASH_DROPS:
+        if site not in found:
+            out.append((f"scan/hash_drop_listed/{site[0]}::{site[1]}", False, f"listed site {site} no longer drops the hash (stale list)"))
+    return out
+
+
+# ---------------------------------------------------------------- Step.after_recycle keeps state and hash
+
+stepmod = common.stepmod
+
+
+def _ar_self(args):
+    db = DbStub("db", [graphdb.query("SELECT state FROM step WHERE node", ty.TupleOf(ty.Int),
+                                     none_keys=lambda a: [dict(step=I(a[0]))])])
+    db.write_reader = graphdb.read_write
+    g = ty.ObjOf(common.Workflow, dict(), name="Workflow").fresh("graph")
+    g._fields["db"] = db
+    return common.fresh_node(common.Step, g, "self")
+
+
+def _ar_finish(c, outcome, args, old):
+    if outcome[0] != "return":
+        return
+    t = c.trace
+    c.prove("hash_is_kept", tm.mk_bool(not any(e.kind == "delete_hash" for e in t)), kind="trace")
+    db, db0 = db_of(args["self"]), db_of(old.self)
+    n = I(args["self"].i)
+    marks = [e for e in t if e.kind == "mark_step_pending"]
+    failed = tm.Eq(sstate(db0, n), tm.mk_int(StepState.FAILED.value))
+    c.prove("pending_only_if_it_had_failed", tm.Implies(tm.mk_bool(len(marks) > 0), failed), kind="trace")
+    for e in t:
+        if e.kind == "sql" and e.norm.upper().startswith("UPDATE STEP"):
+            cols = set(x.split("=")[0].strip() for x in e.norm.split(" SET ", 1)[1].split(" WHERE ")[0].split(","))
+            c.prove("update_leaves_state_and_hash_alone", tm.mk_bool(not ({"state", "deferred"} & cols)), kind="trace",
+                    detail=f"columns set: {sorted(cols)}")
+
+
+@contract("stepup/core/step.py::Step.set_duration", props=[], verify=False, note="stores the duration estimate of the step")
+class set_duration:
+    modifies = []
+
+
+@contract("stepup/core/step.py::Step.after_recycle", props=["C04"])
+class after_recycle:
+    """A fully recycled step keeps its state and its stored hash; only a FAILED step is made pending."""
+
+    args = dict(self=_ar_self, need=ty.EnumOf(common.Need), shell=ty.Bool, resources=lambda a: None,
+                env_overrides=lambda a: None, duration=lambda a: None)
+    entry = lambda self: wrap_bool(graphdb.exists(db_of(self), "step", I(self.i)))
+    finish = _ar_finish
+    modifies = []
